@@ -189,8 +189,10 @@ func (t1 *Tasks) Merge(t2 *Tasks, include *Include, includedTaskfileVars *Vars) 
 				task.IncludeVars = NewVars()
 			}
 			task.IncludeVars.Merge(include.Vars, nil)
-			task.IncludedTaskfileVars = includedTaskfileVars.DeepCopy()
 		}
+		// The variables of the task's own Taskfile rank above the global ones
+		// whichever form the include statement has
+		task.IncludedTaskfileVars = includedTaskfileVars.DeepCopy()
 
 		if _, ok := t1.Get(taskName); ok {
 			return &errors.TaskNameFlattenConflictError{
